@@ -62,6 +62,7 @@ class Program:
         self.functions: dict[str, FuncInfo] = {}  # module-level, by bare name and by file::name
         self.files: dict[str, ast.Module] = {}
         self.sources: dict[str, str] = {}
+        self.module_consts: dict[str, dict[str, ast.expr]] = {}  # file -> NAME = <constant expression>
 
     def load(self, relpath):
         if relpath in self.files:
@@ -91,6 +92,9 @@ class Program:
 
     def _index(self, tree, relpath):
         for node in tree.body:
+            if isinstance(node, ast.Assign) and len(node.targets) == 1 and isinstance(node.targets[0], ast.Name) \
+                    and isinstance(node.value, ast.Constant) and isinstance(node.value.value, (int, bool)):
+                self.module_consts.setdefault(relpath, {})[node.targets[0].id] = node.value
             if isinstance(node, ast.FunctionDef):
                 fi = FuncInfo(node.name, node, relpath)
                 self.functions[node.name] = fi
@@ -222,6 +226,7 @@ CORE_FILES = [
     "job_shop_lib/reinforcement_learning/_reward_observers.py",
     "job_shop_lib/generation/_instance_generator.py",
     "job_shop_lib/generation/_general_instance_generator.py",
+    "job_shop_lib/visualization/_plot_gantt_chart.py",
 ]
 
 
